@@ -158,6 +158,25 @@ func TestExh_C17(t *testing.T) {
 		}
 		return a
 	}
+	// the ttRPC options a runtime may pass to adaptation.New, each alone and a few together,
+	// with the stall points that only the request timeout ends (100 ms timeouts)
+	hang := []Peer{
+		{Name: "p", Idx: "10", Stall: stallCfgHang}, {Name: "p", Idx: "11", Stall: stallSyncHang},
+		{Name: "p", Idx: "12", Stall: stallSilent}, {Name: "p", Idx: "13", Stall: stallCfgErr},
+		{Name: "p", Idx: "14", Mask: 1 << 2}, good,
+	}
+	single(Peer{Name: "p", Idx: "10", Stall: stallSyncHang})
+	for _, toks := range append([][]string{
+		{ttClientUnary, ttServerUnary}, {ttClientChain, ttClientUnary, ttServerChain},
+		{ttClientOnClose, ttClientUnary, ttServerShake}, {ttServerUnary, ttServerChain, ttClientChain, ttClientChain},
+	}, func() (l [][]string) {
+		for _, t := range ttTokens {
+			l = append(l, []string{t})
+		}
+		return
+	}()...) {
+		run(C17Case{Kind: "reg", TimeoutMs: 100, TTRPC: toks, Peers: hang, Events: evs})
+	}
 	// a peer that registers again on its connection (same / different / invalid identity, at
 	// each phase of the handshake), combined with every Configure / Synchronize outcome
 	outcomes := []Peer{
